@@ -15,7 +15,7 @@ func init() {
 		Explanation: "Decides the structural conditions of complete, ordered, duplicate-free, faithful delivery given gocbcore's per-connection dispatch: (R1) from each document handler to Consumer.ConsumeEvent there is one synchronous chain — no go, channel, select or timer in the handler, the deliver function, the listener or the forwarder; " +
 			"(R2) exactly-once: each document handler delivers once iff canForward ∧ ¬beforeSkipWindow ∧ inSnapshot (exhaustive over the three predicates; any other branch makes it undecided = undocumented filter), the deliver function calls the listener once with the received event iff ¬closed, each document arm of the listener calls the forwarder once, the forwarder invokes ConsumeEvent once with the same payload iff ¬IsMetadata; " +
 			"(R3) the skip-window predicate is SkipUntil≠nil ∧ SkipUntil.After(eventTime) (strict); the collection name is the configured entry or \"_default\"; (R4) each wrapper embeds a pointer to the handler's own copy of the event, with Offset.SeqNo, CollectionName and EventTime = time.Unix(int64(Cas/1e9),0) from that event, and no gocbcore event field is ever written; " +
-			"(R5) the set of concrete types the observer emits equals the listener's type-switch arms plus the explicit no-op set {DcpSnapshotMarker, DcpOSOSnapshot}. " +
+			"(R5) the set of concrete types the observer emits equals the listener's type-switch arms plus the explicit no-op set {DcpSnapshotMarker, DcpOSOSnapshot}; (R6) the observer's delivery and end switches are thrown only by Stream.Close (who-may-write / who-may-call), so a stream reopened on the same observer delivers again. " +
 			"Not decided: completeness/order of what gocbcore and the server deliver; behaviour across vBuckets at run time.",
 		Assumptions: []string{"gocbcore calls the handlers of one vBucket's stream sequentially in server order", "reflect-based IsMetadata is decided in C14"},
 		Rules: []RuleDef{
@@ -24,6 +24,7 @@ func init() {
 			{ID: "C03.R3", Text: "filters: IsMetadata ⇔ key has one of the two reserved prefixes (C14.R2); isBeforeSkipWindow ⇔ SkipUntil≠nil ∧ SkipUntil.After(eventTime); convertToCollectionName returns the configured entry or \"_default\"", Run: c03r3},
 			{ID: "C03.R4", Text: "wrapper literals embed the handler's own event copy; Offset.SeqNo/CollectionName/EventTime derive from that event; no field of a gocbcore event or of an offset is written in place", Run: c03r4},
 			{ID: "C03.R5", Text: "types emitted by the observer = listener type-switch arms ∪ {gocbcore.DcpSnapshotMarker, gocbcore.DcpOSOSnapshot}", Run: c03r5},
+			{ID: "C03.R6", Text: "the delivery switch is thrown only by the stream's close: observer.closed is written only by Observer.Close, which is called only from Stream.Close (a reopened stream reuses its observer)", Run: switchOwner},
 		},
 	})
 }
